@@ -1,8 +1,520 @@
 /-
-C13 — property theorems (stub; see DESIGN.md §6).
+C13 — Dual vigilance.
+
+"For each sample DualVigilanceART visits categories in decreasing activation:
+the first one passing the upper vigilance absorbs the sample; otherwise the first
+one passing only the lower vigilance spawns a new category carrying the same
+cluster label; otherwise a new category with a brand-new cluster label is
+created.  The category-to-cluster map is total, its values are exactly
+0..n_clusters-1, every returned or predicted label is such a cluster label, and
+each underlying category still obeys the base module's upper-vigilance bound."
+
+Reading adopted (DESIGN.md §6 C13, the published DVFA rule and the code's single
+pass): the FIRST visited, non-vetoed category that passes the upper test in force
+or the lower test decides — absorb if it passes the upper one, else spawn.
+
+Where the faithful model departs from the sentence (counterexample + partial):
+  * F18 / C13-a  "visited" = activation > 0 (`while any(T > 0)`):
+      `dual_zero_activation_counterexample`, `dual_statement_partial`;
+  * C13-b  `fit` on an empty batch keeps the previous map:
+      `dual_refit_empty_counterexample`, `dual_map_total_fit_partial`;
+  * C13-d  the wrapper's match tracking is the non-inverted rule also for a base module
+      with an inverted test (BayesianART), so tracking can relax the threshold in force
+      below the configured one: `dual_inverted_tracking_counterexample`; partials
+      `dual_upper_bound_configured` (explicit hypothesis: tracking only tightens —
+      `dual_scalar_tracking_tightens` proves it for the seven non-inverted modules in
+      every mode but MT-) and `dual_upper_bound_no_reset_partial`.
+  (C13-c / F27 — tracking after a vetoed category that FAILED the upper test — was
+   repaired in /repo 1d1ae6e; the model tracks only after a vetoed visit with `m1`.)
+
+Property theorems only; helper lemmas live in ArtProofs.DualVig.
 -/
-import ArtModel.Basic
+import ArtProofs.DualVig
+import ArtModel.Kernels
 
 namespace Art.C13
+
+variable {X Wt α μ θ : Type} [LinearOrder α]
+
+/-! ### The search of one step -/
+
+/-- The loop terminates: any fuel ≥ the number of non-NaN activations gives the same result. -/
+theorem dual_terminates (cfg : SearchCfg μ θ) (lb : θ) (pos : α → Bool) (M : Nat → μ)
+    (veto : Nat → Bool) (f₁ f₂ : Nat) (T : List (Option α)) (th : θ)
+    (h₁ : liveCount T ≤ f₁) (h₂ : liveCount T ≤ f₂) :
+    dualSearch cfg lb pos M veto f₁ T th = dualSearch cfg lb pos M veto f₂ T th :=
+  dualSearch_fuel_irrelevant cfg lb pos M veto f₁ f₂ T th h₁ h₂
+
+/-- **Visiting order.**  Categories are visited by decreasing activation, ties to
+the oldest (`Before`), each at most once; *only categories whose activation is
+positive are ever visited* (this is the code's `any(T > 0)`, F18); nobody that
+comes before a visited category is skipped. -/
+theorem dual_visit_order (cfg : SearchCfg μ θ) (lb : θ) (pos : α → Bool) (hm : PosMono pos)
+    (M : Nat → μ) (veto : Nat → Bool) (T : List (Option α)) (th : θ) :
+    ((dualSearch cfg lb pos M veto T.length T th).visits.map (·.c)).Pairwise (Before T) ∧
+    (∀ v ∈ (dualSearch cfg lb pos M veto T.length T th).visits,
+      ∃ a, T[v.c]? = some (some a) ∧ pos a = true) ∧
+    (∀ v ∈ (dualSearch cfg lb pos M veto T.length T th).visits, ∀ j, Before T j v.c →
+      j ∈ (dualSearch cfg lb pos M veto T.length T th).visits.map (·.c)) :=
+  dualSearch_visit_order cfg lb pos M veto hm T.length T th (liveCount_le_length T)
+
+/-- Every visit records the tests of its category: upper test against the
+threshold in force, lower test against `rho_lower_bound`, veto of the reset function. -/
+theorem dual_visits_faithful (cfg : SearchCfg μ θ) (lb : θ) (pos : α → Bool) (M : Nat → μ)
+    (veto : Nat → Bool) (T : List (Option α)) (th : θ) :
+    ∀ v ∈ (dualSearch cfg lb pos M veto T.length T th).visits,
+      v.m1 = cfg.passes v.th (M v.c) ∧ v.m2 = cfg.passes lb (M v.c) ∧ v.ok = !veto v.c :=
+  dualSearch_visits_faithful cfg lb pos M veto T.length T th (liveCount_le_length T)
+
+/-- **The three-way rule.**  With `r` the result of the loop on activations `T`
+(visiting order: `dual_visit_order`):
+* `r.outcome` is the reference fold `dualRef` over the visited categories: walk
+  them in order; a vetoed one that passed the upper test moves the threshold
+  (`track`) — or ends the search with a fresh label under MT1 —, a vetoed one that
+  failed it is just skipped; the first non-vetoed one passing the upper test
+  in force absorbs, passing only the lower test spawns; none → fresh label;
+* `absorb c`: `c` is the last visit, not vetoed, passed the upper test in force;
+* `spawn c`: `c` is the last visit, not vetoed, failed the upper test in force
+  and passed the lower one;
+* `fresh`: no visit was a non-vetoed category passing either test;
+* a visit that decides is the last one (the loop stops at the first decider). -/
+theorem dual_decision (cfg : SearchCfg μ θ) (lb : θ) (pos : α → Bool) (M : Nat → μ)
+    (veto : Nat → Bool) (T : List (Option α)) (th : θ) :
+    (dualSearch cfg lb pos M veto T.length T th).outcome =
+      dualRef cfg lb M veto ((dualSearch cfg lb pos M veto T.length T th).visits.map (·.c)) th ∧
+    (∀ c, (dualSearch cfg lb pos M veto T.length T th).outcome = .absorb c →
+      ∃ th', (dualSearch cfg lb pos M veto T.length T th).visits.getLast? =
+          some ⟨c, th', true, cfg.passes lb (M c), true⟩ ∧
+        cfg.passes th' (M c) = true ∧ veto c = false) ∧
+    (∀ c, (dualSearch cfg lb pos M veto T.length T th).outcome = .spawn c →
+      ∃ th', (dualSearch cfg lb pos M veto T.length T th).visits.getLast? =
+          some ⟨c, th', false, true, true⟩ ∧
+        cfg.passes th' (M c) = false ∧ cfg.passes lb (M c) = true ∧ veto c = false) ∧
+    ((dualSearch cfg lb pos M veto T.length T th).outcome = .fresh →
+      ∀ v ∈ (dualSearch cfg lb pos M veto T.length T th).visits, v.decides = false) ∧
+    (∀ v ∈ (dualSearch cfg lb pos M veto T.length T th).visits, v.decides = true →
+      (dualSearch cfg lb pos M veto T.length T th).visits.getLast? = some v ∧
+      (dualSearch cfg lb pos M veto T.length T th).outcome =
+        (if v.m1 then .absorb v.c else .spawn v.c)) := by
+  have hf := liveCount_le_length T
+  obtain ⟨h1, h2, h3⟩ := dualSearch_sound cfg lb pos M veto T.length T th hf
+  exact ⟨dualSearch_eq_ref cfg lb pos M veto T.length T th hf, h1, h2, h3,
+    dualSearch_decider cfg lb pos M veto T.length T th hf⟩
+
+/-- **Fresh label ⇒ everybody was asked.**  If the sample gets a brand-new cluster
+label and the search was not abandoned (MT1 after a vetoed category that passed the
+upper test), every category with a positive activation was visited — and none of
+them qualified (`dual_decision`). -/
+theorem dual_fresh_exhaustive (cfg : SearchCfg μ θ) (lb : θ) (pos : α → Bool) (M : Nat → μ)
+    (veto : Nat → Bool) (T : List (Option α)) (th : θ)
+    (hfresh : (dualSearch cfg lb pos M veto T.length T th).outcome = .fresh)
+    (hkeep : cfg.keep = true ∨
+      ∀ v ∈ (dualSearch cfg lb pos M veto T.length T th).visits, v.ok = true ∨ v.m1 = false) :
+    ∀ c a, T[c]? = some (some a) → pos a = true →
+      c ∈ (dualSearch cfg lb pos M veto T.length T th).visits.map (·.c) :=
+  dualSearch_exhaustive cfg lb pos M veto T.length T th (liveCount_le_length T) hfresh hkeep
+
+/-- **Threshold trace.**  The first visit sees the configured upper threshold; it
+changes only after a vetoed visit that passed the upper test, to `track th (M c)`
+(`dNextTh`). -/
+theorem dual_threshold_trace (cfg : SearchCfg μ θ) (lb : θ) (pos : α → Bool) (M : Nat → μ)
+    (veto : Nat → Bool) (T : List (Option α)) (th : θ) :
+    DThreadsFrom cfg M th (dualSearch cfg lb pos M veto T.length T th).visits
+      (dualSearch cfg lb pos M veto T.length T th).th :=
+  dualSearch_threshold_trace cfg lb pos M veto T.length T th (liveCount_le_length T)
+
+/-- **No reset function.**  The sample is settled by the first index of maximal
+activation among the positive-activation categories passing the upper or the
+lower vigilance: absorbed if it passes the upper one, else a category is spawned
+under its label; a fresh label iff no such category exists. -/
+theorem dual_decision_no_reset (cfg : SearchCfg μ θ) (lb : θ) (pos : α → Bool) (hm : PosMono pos)
+    (M : Nat → μ) (T : List (Option α)) (th : θ) :
+    (dualSearch cfg lb pos M (fun _ => false) T.length T th).outcome =
+      match nanargmax (dualQualifying cfg lb pos M th T) with
+      | some c => if cfg.passes th (M c) then .absorb c else .spawn c
+      | none => .fresh :=
+  dualSearch_no_veto cfg lb pos M hm T.length T th (liveCount_le_length T)
+
+/-- **No reset function, `rho_lower_bound ≤ rho`** (any test for which passing the
+upper threshold implies passing the lower one; `passesScalar_of_le` shows this for
+every non-inverted scalar test): *the first category passing the lower vigilance
+decides* — absorbed if it also passes the upper one, else spawn; fresh label iff
+nobody with a positive activation passes the lower vigilance. -/
+theorem dual_first_lower_decides (cfg : SearchCfg μ θ) (lb : θ) (pos : α → Bool) (hm : PosMono pos)
+    (M : Nat → μ) (T : List (Option α)) (th : θ)
+    (himp : ∀ m, cfg.passes th m = true → cfg.passes lb m = true) :
+    (dualSearch cfg lb pos M (fun _ => false) T.length T th).outcome =
+      match nanargmax (lowerQualifying cfg lb pos M T) with
+      | some c => if cfg.passes th (M c) then .absorb c else .spawn c
+      | none => .fresh := by
+  rw [← dualQualifying_eq_lower cfg lb pos M th T himp]
+  exact dualSearch_no_veto cfg lb pos M hm T.length T th (liveCount_le_length T)
+
+/-- the hypothesis of `dual_first_lower_decides` holds for the scalar vigilance test
+of the seven non-inverted modules whenever `rho_lower_bound ≤ rho` -/
+theorem dual_scalar_upper_implies_lower (mode : MT) (adjP adjM : α → α) (top lb rho : α)
+    (h : lb ≤ rho) (m : α)
+    (hp : (scalarCfg mode false adjP adjM top).passes rho m = true) :
+    (scalarCfg mode false adjP adjM top).passes lb m = true :=
+  passesScalar_of_le mode h m hp
+
+/-! ### F18: "visited" means "positive activation" -/
+
+/-- Fuzzy ART over ℚ, `alpha = 2⁻¹⁰`, `beta = 1`, two raw dimensions -/
+def fzK : Kernel (List Rat) (List Rat) Rat Rat := fuzzyKernel (1 / 1024) 1 2
+/-- MT+ with `epsilon = 0` -/
+def fzCfg : SearchCfg Rat Rat := scalarCfg .plus false (· + 0) (· - 0) 0
+/-- complement-coded rows `[0,0]`, `[1,1]`, `[0,0]` -/
+def fzX : List (List Rat) := [[0, 0, 1, 1], [1, 1, 0, 0], [0, 0, 1, 1]]
+
+/- Full statement (fails): for every stream the model's decision equals the
+   decision of the loop that visits *every* category by decreasing activation
+   (`pos := fun _ => true`). -/
+
+/-- **F18 (counterexample to the literal statement).**  `rho = 3/4`,
+`rho_lower_bound = 0`: the second sample `[1,1]` has `x ∧ w₀ = 0`, activation 0
+and match value `0 ≥ rho_lower_bound`.  The statement (every category is visited)
+spawns a category under cluster 0: labels `[0,0,0]`.  The implementation's loop
+`while any(T > 0)` never looks at category 0 and opens cluster 1: labels `[0,1,0]`. -/
+theorem dual_zero_activation_counterexample :
+    (dualFit fzK fzCfg (3 / 4) 0 (posOf 0) noVeto {} fzX).base.labels = [0, 1, 0] ∧
+    (dualFit fzK fzCfg (3 / 4) 0 (posOf 0) noVeto {} fzX).map = [0, 1] ∧
+    (dualFit fzK fzCfg (3 / 4) 0 (fun _ => true) noVeto {} fzX).base.labels = [0, 0, 0] ∧
+    (dualFit fzK fzCfg (3 / 4) 0 (fun _ => true) noVeto {} fzX).map = [0, 0] := by
+  decide +kernel
+
+/-- **Partial (explicit hypothesis): all non-NaN activations positive.**  Then the
+loop of the implementation is the loop of the statement, for every configuration,
+veto pattern and fuel. -/
+theorem dual_statement_partial (cfg : SearchCfg μ θ) (lb : θ) (pos : α → Bool) (M : Nat → μ)
+    (veto : Nat → Bool) (fuel : Nat) (T : List (Option α)) (th : θ)
+    (hall : ∀ t ∈ T, ∀ a, t = some a → pos a = true) :
+    dualSearch cfg lb pos M veto fuel T th = dualSearch cfg lb (fun _ => true) M veto fuel T th :=
+  dualSearch_all_positive cfg lb pos M veto fuel T th hall
+
+/-! ### The map: total, values exactly `0 … n_clusters − 1` -/
+
+variable (K : Kernel X Wt α μ) (cfg : SearchCfg μ θ) (th0 lb : θ) (pos : α → Bool)
+
+/-- **Totality.**  From the initial state, or any consistent state, every
+sequence of `partial_fit` batches keeps exactly one map entry per category. -/
+theorem dual_map_total (veto : DualState Wt → X → Nat → Bool) (s : DualState Wt) (xs : List X)
+    (hi : DualInv s) :
+    (dualPartialFit K cfg th0 lb pos veto s xs).map.length =
+      (dualPartialFit K cfg th0 lb pos veto s xs).base.W.length :=
+  (dualPartialFit_inv K cfg th0 lb pos veto s xs hi).total
+
+/- Full statement (fails for `fit` on an empty batch, C13-b): after `fit` from ANY
+   state the map has one entry per category. -/
+
+/-- **Counterexample (C13-b).**  `fit(X)` then `fit` on an empty batch: `W` is
+discarded, the map is only replaced when a first sample arrives, so two stale
+entries — and `n_clusters = 2` — remain for a model with no category. -/
+theorem dual_refit_empty_counterexample :
+    (dualFit fzK fzCfg (3 / 4) 0 (posOf 0) noVeto
+      (dualFit fzK fzCfg (3 / 4) 0 (posOf 0) noVeto {} fzX) []).base.W.length = 0 ∧
+    (dualFit fzK fzCfg (3 / 4) 0 (posOf 0) noVeto
+      (dualFit fzK fzCfg (3 / 4) 0 (posOf 0) noVeto {} fzX) []).map = [0, 1] ∧
+    nClusters (dualFit fzK fzCfg (3 / 4) 0 (posOf 0) noVeto
+      (dualFit fzK fzCfg (3 / 4) 0 (posOf 0) noVeto {} fzX) []).map = 2 := by
+  decide +kernel
+
+/-- **Partial: `fit` on a non-empty stream**, from any previous state whatsoever
+(stale map included), ends with exactly one map entry per category. -/
+theorem dual_map_total_fit_partial (veto : DualState Wt → X → Nat → Bool) (s : DualState Wt)
+    (xs : List X) (hne : xs ≠ []) :
+    (dualFit K cfg th0 lb pos veto s xs).map.length =
+      (dualFit K cfg th0 lb pos veto s xs).base.W.length :=
+  (dualFit_inv K cfg th0 lb pos veto s xs hne).total
+
+/-- **Range.**  After any training history (batches of `partial_fit` from a
+consistent state, or `fit` on a non-empty stream from any state) the set of map
+values is exactly `{0, …, n_clusters − 1}`: every value is `< n_clusters` and every
+`j < n_clusters` occurs. -/
+theorem dual_map_range (veto : DualState Wt → X → Nat → Bool) (s : DualState Wt) (xs : List X) :
+    (DualInv s →
+      (∀ v ∈ (dualPartialFit K cfg th0 lb pos veto s xs).map,
+        v < nClusters (dualPartialFit K cfg th0 lb pos veto s xs).map) ∧
+      (∀ j, j < nClusters (dualPartialFit K cfg th0 lb pos veto s xs).map →
+        j ∈ (dualPartialFit K cfg th0 lb pos veto s xs).map)) ∧
+    (xs ≠ [] →
+      (∀ v ∈ (dualFit K cfg th0 lb pos veto s xs).map,
+        v < nClusters (dualFit K cfg th0 lb pos veto s xs).map) ∧
+      (∀ j, j < nClusters (dualFit K cfg th0 lb pos veto s xs).map →
+        j ∈ (dualFit K cfg th0 lb pos veto s xs).map)) :=
+  ⟨fun hi => nClusters_spec (dualPartialFit_inv K cfg th0 lb pos veto s xs hi).contig,
+   fun hne => nClusters_spec (dualFit_inv K cfg th0 lb pos veto s xs hne).contig⟩
+
+omit [LinearOrder α] in
+/-- **New labels are `max + 1 = n_clusters`.**  On a consistent non-empty model a
+`fresh` decision returns the label `n_clusters` and raises `n_clusters` by one;
+`absorb` and `spawn` return an existing label and leave `n_clusters` unchanged. -/
+theorem dual_new_label_is_next (s : DualState Wt) (x : X) (hi : DualInv s) (hne : s.base.W ≠ []) :
+    (dualApply K s x (some .fresh)).2 = nClusters s.map ∧
+    nClusters (dualApply K s x (some .fresh)).1.map = nClusters s.map + 1 ∧
+    (∀ c, (dualApply K s x (some (.spawn c))).2 ∈ s.map ∧
+      nClusters (dualApply K s x (some (.spawn c))).1.map = nClusters s.map) ∧
+    (∀ c, (dualApply K s x (some (.absorb c))).2 ∈ s.map ∧
+      (dualApply K s x (some (.absorb c))).1.map = s.map) := by
+  have hm : s.map ≠ [] := by
+    intro h
+    have := hi.total; rw [h] at this
+    exact hne (List.length_eq_zero_iff.mp this.symm)
+  have hk := nClusters_eq hi.contig hm
+  have hfresh : Contig (s.map ++ [mapMax s.map + 1]) := contig_append_succ_max hi.contig hm
+  refine ⟨by simp [dualApply, hk], ?_, ?_, ?_⟩
+  · have : mapMax (s.map ++ [mapMax s.map + 1]) = mapMax s.map + 1 := by
+      apply Nat.le_antisymm
+      · have := mapMax_mem (m := s.map ++ [mapMax s.map + 1]) (by simp)
+        simp only [List.mem_append, List.mem_singleton] at this
+        rcases this with h | h
+        · exact Nat.le_succ_of_le (le_mapMax h)
+        · exact Nat.le_of_eq h
+      · exact le_mapMax (by simp)
+    simp only [dualApply, dualAdd]
+    rw [nClusters_eq hfresh (by simp), this, hk]
+  · intro c
+    have hmem := getD_mem_of_contig hi.contig hm c
+    refine ⟨by simpa [dualApply] using hmem, ?_⟩
+    have hc' : Contig (s.map ++ [s.map.getD c 0]) := contig_append_mem hi.contig hmem
+    have : mapMax (s.map ++ [s.map.getD c 0]) = mapMax s.map := by
+      apply Nat.le_antisymm
+      · have := mapMax_mem (m := s.map ++ [s.map.getD c 0]) (by simp)
+        simp only [List.mem_append, List.mem_singleton] at this
+        rcases this with h | h
+        · exact le_mapMax h
+        · rw [h]; exact le_mapMax hmem
+      · exact le_mapMax (List.mem_append_left _ (mapMax_mem hm))
+    simp only [dualApply, dualAdd]
+    rw [nClusters_eq hc' (by simp), this, hk]
+  · intro c
+    have hmem := getD_mem_of_contig hi.contig hm c
+    constructor
+    · simp only [dualApply]; split <;> exact hmem
+    · simp only [dualApply]; split <;> rfl
+
+/-- **Returned labels are cluster labels.**  Every entry of `labels_` is a value
+of the map and `< n_clusters`. -/
+theorem dual_returns_cluster_label (veto : DualState Wt → X → Nat → Bool) (s : DualState Wt)
+    (xs : List X) :
+    (DualInv s → ∀ l ∈ (dualPartialFit K cfg th0 lb pos veto s xs).base.labels,
+      l ∈ (dualPartialFit K cfg th0 lb pos veto s xs).map ∧
+      l < nClusters (dualPartialFit K cfg th0 lb pos veto s xs).map) ∧
+    (xs ≠ [] → ∀ l ∈ (dualFit K cfg th0 lb pos veto s xs).base.labels,
+      l ∈ (dualFit K cfg th0 lb pos veto s xs).map ∧
+      l < nClusters (dualFit K cfg th0 lb pos veto s xs).map) := by
+  constructor
+  · intro hi l hl
+    have inv := dualPartialFit_inv K cfg th0 lb pos veto s xs hi
+    exact ⟨inv.labels l hl, (nClusters_spec inv.contig).1 _ (inv.labels l hl)⟩
+  · intro hne l hl
+    have inv := dualFit_inv K cfg th0 lb pos veto s xs hne
+    exact ⟨inv.labels l hl, (nClusters_spec inv.contig).1 _ (inv.labels l hl)⟩
+
+/-- **Predicted labels are cluster labels**, and a consistent non-empty model
+answers for every sample. -/
+theorem dual_predict_in_range (s : DualState Wt) (hi : DualInv s) (xs : List X) :
+    (∀ o ∈ dualPredict K s xs, ∀ l, o = some l → l ∈ s.map ∧ l < nClusters s.map) ∧
+    (s.base.W ≠ [] → ∀ o ∈ dualPredict K s xs, ∃ l, o = some l) := by
+  constructor
+  · intro o ho l hl
+    simp only [dualPredict, List.mem_map] at ho
+    obtain ⟨x, _, hx⟩ := ho
+    have hmem := dualStepPred_mem K s x l (hx.trans hl)
+    exact ⟨hmem, (nClusters_spec hi.contig).1 _ hmem⟩
+  · intro hne o ho
+    simp only [dualPredict, List.mem_map] at ho
+    obtain ⟨x, _, hx⟩ := ho
+    obtain ⟨l, hl⟩ := dualStepPred_isSome K s x hi hne
+    exact ⟨l, hx ▸ hl⟩
+
+/-! ### The base module's upper-vigilance bound -/
+
+/-- **Frame / upper bound.**  In one step on a non-empty model either exactly the
+category `new_weight x` is appended (no existing weight changes, the old map is a
+prefix of the new one), or one weight `W[c]` changes, to `update x W[c]`, the map is
+untouched, and `c` was not vetoed and passed the UPPER test against the threshold
+in force at its visit.  Spawned and fresh categories are `new_weight x`. -/
+theorem dual_upper_bound_respected (vetoL : Nat → Bool) (s : DualState Wt) (x : X)
+    (hne : s.base.W ≠ []) :
+    ((dualStepFit K cfg th0 lb pos vetoL s x).1.base.W = s.base.W ++ [K.newW x] ∧
+      (dualStepFit K cfg th0 lb pos vetoL s x).1.map.length = s.map.length + 1 ∧
+      (dualStepFit K cfg th0 lb pos vetoL s x).1.map.take s.map.length = s.map ∧
+      ∀ c, (dualStepSearch K cfg th0 lb pos vetoL s x).outcome ≠ .absorb c) ∨
+    (∃ c w th', (dualStepSearch K cfg th0 lb pos vetoL s x).outcome = .absorb c ∧
+      s.base.W[c]? = some w ∧
+      (dualStepFit K cfg th0 lb pos vetoL s x).1.base.W = s.base.W.set c (K.update x w) ∧
+      (dualStepFit K cfg th0 lb pos vetoL s x).1.map = s.map ∧
+      (dualStepSearch K cfg th0 lb pos vetoL s x).visits.getLast? =
+        some ⟨c, th', true, cfg.passes lb (K.matchv x w), true⟩ ∧
+      cfg.passes th' (K.matchv x w) = true ∧ vetoL (s.map.getD c 0) = false) :=
+  dualStepFit_frame K cfg th0 lb pos vetoL s x hne
+
+/-- **Upper bound against the CONFIGURED threshold**, with or without a reset
+function, whenever match tracking only tightens the test (`TrackTightens`): the
+category that absorbs a sample passed the configured upper vigilance `th0`, and its
+weight becomes `update x W[c]`. -/
+theorem dual_upper_bound_configured (ht : TrackTightens cfg) (vetoL : Nat → Bool)
+    (s : DualState Wt) (x : X) (hne : s.base.W ≠ []) (c : Nat)
+    (ho : (dualStepSearch K cfg th0 lb pos vetoL s x).outcome = .absorb c) :
+    ∃ w, s.base.W[c]? = some w ∧
+      (dualStepFit K cfg th0 lb pos vetoL s x).1.base.W = s.base.W.set c (K.update x w) ∧
+      cfg.passes th0 (K.matchv x w) = true :=
+  dualStepFit_absorb_configured K cfg th0 lb pos ht vetoL s x hne c ho
+
+/-- `TrackTightens` holds for the scalar test of the seven non-inverted modules under
+MT+, MT0, MT1, MT~ with `M + epsilon ≥ M`.  (MT- lowers the threshold by design, F20.) -/
+theorem dual_scalar_tracking_tightens (mode : MT) (hmode : mode ≠ .minus) (adjP adjM : α → α)
+    (top : α) (hadj : ∀ m, m ≤ adjP m) : TrackTightens (scalarCfg mode false adjP adjM top) :=
+  scalar_track_tightens mode hmode adjP adjM top hadj
+
+/-- Every threshold in force during a search is at least as strict as the configured
+one when tracking only tightens. -/
+theorem dual_threshold_tightens (cfg : SearchCfg μ θ) (lb : θ) (pos : α → Bool) (M : Nat → μ)
+    (veto : Nat → Bool) (ht : TrackTightens cfg) (T : List (Option α)) (th : θ) :
+    ∀ v ∈ (dualSearch cfg lb pos M veto T.length T th).visits,
+      ∀ m, cfg.passes v.th m = true → cfg.passes th m = true :=
+  dualSearch_tightens cfg lb pos M veto ht T.length T th (liveCount_le_length T)
+
+/- Full statement (fails for an inverted base module, C13-d): an absorbing category
+   passes the CONFIGURED upper threshold `th0`, for every configuration. -/
+
+/-- MT+ with `epsilon = 0` on integers: `passes th m = (th ≤ m)`, `track _ m = m`. -/
+def intCfg : SearchCfg Int Int := scalarCfg .plus false (· + 0) (· - 0) 1000
+
+/-- inverted vigilance test (`m ≤ th`, BayesianART) with the wrapper's non-inverted MT+ tracking,
+`epsilon = 2` -/
+def invCfg : SearchCfg Int Int :=
+  { passes := passesScalar .plus true, track := trackScalar .plus (· + 2) (· - 2) 1000,
+    keep := true, tilde := false }
+
+/-- **Counterexample (C13-d), inverted base module.**  Configured `rho = 5`: category 0
+(match 4) PASSES `4 ≤ 5` and is vetoed; the non-inverted rule sets `rho := 4 + 2 = 6`,
+relaxing the inverted test; category 1 (match 6) passes `6 ≤ 6` and absorbs the sample
+although `6 > 5`. -/
+theorem dual_inverted_tracking_counterexample :
+    (dualSearch invCfg 0 (posOf 0) (fun c => [4, 6].getD c 0) (fun c => [true, false].getD c false)
+      2 [some 3, some 2] 5).outcome = .absorb 1 ∧
+    invCfg.passes 5 ((fun c => [4, 6].getD c 0) 0) = true ∧
+    invCfg.passes 5 ((fun c => [4, 6].getD c 0) 1) = false := by
+  decide
+
+/-- **Partial: no reset function.**  The threshold in force is the configured one
+at every visit, so a category that absorbs a sample passed the configured upper
+vigilance. -/
+theorem dual_upper_bound_no_reset_partial (s : DualState Wt) (x : X) (hne : s.base.W ≠ []) (c : Nat)
+    (ho : (dualStepSearch K cfg th0 lb pos (fun _ => false) s x).outcome = .absorb c) :
+    ∃ w, s.base.W[c]? = some w ∧
+      (dualStepFit K cfg th0 lb pos (fun _ => false) s x).1.base.W = s.base.W.set c (K.update x w) ∧
+      cfg.passes th0 (K.matchv x w) = true := by
+  rcases dualStepFit_frame K cfg th0 lb pos (fun _ => false) s x hne with h | h
+  · exact absurd ho (h.2.2.2 c)
+  · obtain ⟨c', w, th', ho', hw, hW, _, hl, hp, _⟩ := h
+    rw [ho] at ho'
+    simp only [DualOutcome.absorb.injEq] at ho'
+    subst ho'
+    have hth := dualSearch_no_veto_threshold cfg lb pos (matchAt K s.base.W x)
+      (activations K s.base.W x).length (activations K s.base.W x) th0 (liveCount_le_length _)
+      _ (List.mem_of_getLast? hl)
+    simp only at hth
+    exact ⟨w, hw, hW, hth ▸ hp⟩
+
+/-! ### Parameters -/
+
+/-- **Parameters restored.**  The configured thresholds `th0`, `lb` are arguments
+of the step: each sample of a fold is searched with the same configured values
+(the fold over `xs ++ [x]` is the fold over `xs` followed by one step with the
+same `th0`, `lb`), and the first visit of every search sees exactly `th0`,
+whatever threshold the previous search ended with. -/
+theorem dual_params_restored (veto : DualState Wt → X → Nat → Bool) (s : DualState Wt)
+    (xs : List X) (x : X) :
+    dualPartialFit K cfg th0 lb pos veto s (xs ++ [x]) =
+      dualTrainStep K cfg th0 lb pos veto (dualPartialFit K cfg th0 lb pos veto s xs) x ∧
+    ∀ (vetoL : Nat → Bool) (s' : DualState Wt) (x' : X) (v : DVisit θ),
+      (dualStepSearch K cfg th0 lb pos vetoL s' x').visits.head? = some v → v.th = th0 := by
+  constructor
+  · simp [dualPartialFit, List.foldl_append]
+  · intro vetoL s' x' v hv
+    have ht := dualSearch_threshold_trace cfg lb pos (matchAt K s'.base.W x')
+      (fun c => vetoL (s'.map.getD c 0)) (activations K s'.base.W x').length
+      (activations K s'.base.W x') th0 (liveCount_le_length _)
+    unfold dualStepSearch at hv
+    simp only at hv
+    cases hvis : (dualSearch cfg lb pos (matchAt K s'.base.W x') (fun c => vetoL (s'.map.getD c 0))
+        (activations K s'.base.W x').length (activations K s'.base.W x') th0).visits with
+    | nil => rw [hvis] at hv; simp at hv
+    | cons v' vs =>
+      rw [hvis] at hv ht
+      simp only [List.head?_cons, Option.some.injEq] at hv
+      subst hv
+      exact ht.1
+
+/-! ### Non-vacuity -/
+
+/-- the first sample: category 0, cluster 0, `map = [0]` -/
+example : (dualFit fzK fzCfg (3 / 4) (1 / 4) (posOf 0) noVeto {} [[0, 0, 1, 1]]).map = [0] ∧
+    (dualFit fzK fzCfg (3 / 4) (1 / 4) (posOf 0) noVeto {} [[0, 0, 1, 1]]).base.labels = [0] := by
+  decide +kernel
+
+/-- Fuzzy ART over ℚ on one raw dimension -/
+def fzK1 : Kernel (List Rat) (List Rat) Rat Rat := fuzzyKernel (1 / 1024) 1 1
+/-- raw points `.25, .5, 1, .25`, complement coded -/
+def fzX1 : List (List Rat) := [[1 / 4, 3 / 4], [1 / 2, 1 / 2], [1, 0], [1 / 4, 3 / 4]]
+
+/-- all three branches on one stream (`rho = 7/8`, `rho_lower_bound = 5/8`): spawn under
+cluster 0, fresh cluster 1, absorb into category 0 -/
+example :
+    (dualFit fzK1 fzCfg (7 / 8) (5 / 8) (posOf 0) noVeto {} fzX1).base.labels = [0, 0, 1, 0] ∧
+    (dualFit fzK1 fzCfg (7 / 8) (5 / 8) (posOf 0) noVeto {} fzX1).map = [0, 0, 1] ∧
+    nClusters (dualFit fzK1 fzCfg (7 / 8) (5 / 8) (posOf 0) noVeto {} fzX1).map = 2 ∧
+    (dualFit fzK1 fzCfg (7 / 8) (5 / 8) (posOf 0) noVeto {} fzX1).base.cnt = [2, 1, 1] ∧
+    (dualFit fzK1 fzCfg (7 / 8) (5 / 8) (posOf 0) noVeto {} fzX1).base.W.length = 3 := by
+  decide +kernel
+
+/-- an exact activation tie goes to the oldest category; match equal to the
+threshold passes under MT+ (`≥`) -/
+example :
+    (dualSearch intCfg 1 (posOf 0) (fun c => [9, 9].getD c 0) (fun _ => false)
+      2 [some 4, some 4] 9).outcome = .absorb 0 := by
+  decide
+
+/-- only the lower test passes (match exactly `rho_lower_bound`): spawn under the best category -/
+example :
+    (dualSearch intCfg 1 (posOf 0) (fun c => [0, 1].getD c 0) (fun _ => false)
+      2 [some 4, some 5] 9).outcome = .spawn 1 := by
+  decide
+
+/-- a vetoed best category is skipped, the threshold tracks, the next one decides -/
+example :
+    (dualSearch intCfg 1 (posOf 0) (fun c => [9, 9].getD c 0) (fun c => [true, false].getD c false)
+      2 [some 5, some 4] 9).outcome = .absorb 1 := by
+  decide
+
+/-- F27 regression: a vetoed category that FAILED the upper test (match 5 < 9) no longer
+tracks; category 1 (match 7) is judged against the configured 9, fails it, passes the lower
+bound 1 and spawns (before the fix it was absorbed against a threshold lowered to 5) -/
+example :
+    (dualSearch intCfg 1 (posOf 0) (fun c => [5, 7].getD c 0) (fun c => [true, false].getD c false)
+      2 [some 3, some 2] 9).outcome = .spawn 1 := by
+  decide
+
+/-- the hypothesis of `dual_upper_bound_configured` is satisfiable: MT+ on integers -/
+example : TrackTightens intCfg :=
+  dual_scalar_tracking_tightens .plus (by decide) (· + 0) (· - 0) 1000 (fun m => by simp)
+
+/-- MT1: the first vetoed match abandons the search — fresh label although category 1 qualifies -/
+example :
+    (dualSearch (scalarCfg .one false (· + 0) (· - 0) (1000 : Int)) 1 (posOf 0)
+      (fun c => [9, 9].getD c 0) (fun c => [true, false].getD c false)
+      2 [some 5, some 4] 9).outcome = .fresh := by
+  decide
+
+/-- the hypotheses of `dual_first_lower_decides` are satisfiable: MT+ on integers, `1 ≤ 9` -/
+example : PosMono (posOf (0 : Int)) ∧
+    ∀ m, intCfg.passes 9 m = true → intCfg.passes 1 m = true :=
+  ⟨posOf_mono 0, fun m h => dual_scalar_upper_implies_lower .plus (· + 0) (· - 0) 1000 1 9 (by decide) m h⟩
+
+/-- the initial state is consistent (hypothesis of `dual_map_total` / `dual_map_range`) -/
+example : DualInv ({} : DualState (List Rat)) := dualInv_init
 
 end Art.C13
